@@ -123,6 +123,7 @@ func c18Perms(n int) [][]int {
 
 type c18Stats struct {
 	execs, permRuns, sitesHit atomic.Int64
+	gasLimits, gasOOG         atomic.Int64 // gas-limit sweep: limits tried, of which run A ended out of gas
 	mu                        sync.Mutex
 	sites                     map[string]int
 }
@@ -258,11 +259,14 @@ type c18L2State struct {
 	ctx   sdk.Context
 	w     *world.L2
 	plans map[uint64]opchildtypes.ExecutorChangePlan
+	depth int
 }
 
 type c18L2Sys struct {
 	st    *c18Stats
 	votes *c15Sys
+	sweep int // message letters of states at depth ≤ sweep are also run under every gas limit (-1: never)
+	swept sync.Map // digest+letter -> *engine.Violation: the explorer re-executes shallow steps many times
 	twins map[*world.L2]*world.L2
 	mu    sync.Mutex
 }
@@ -367,9 +371,40 @@ func (y *c18L2Sys) Letters(s *c18L2State) []engine.Letter {
 	return ls
 }
 
+
+// message builds the transaction message of a message letter against (w, ctx).
+func (y *c18L2Sys) message(op c18L2Op, w *world.L2, ctx sdk.Context) sdk.Msg {
+	if op.kind == "msg" {
+		return op.msg(w, ctx)
+	}
+	cs := &c15State{ctx: ctx, w: w, set: y.votes.initial, hostH: 10, flagOn: true}
+	newest := int64(0)
+	for _, p := range cs.prices(ctx) {
+		if p.has && p.ts.UnixNano() > newest {
+			newest = p.ts.UnixNano()
+		}
+	}
+	var votes []c15Vote
+	ts := newest + 1_000_000_000
+	switch op.kind {
+	case "oracle":
+		votes = []c15Vote{{"hv1", shPriceP}, {"hv2", shPriceQ}, {"hv3", shNoBTC}}
+	case "oracle-untracked":
+		votes = []c15Vote{{"hv1", shWithUntracked}, {"hv2", shWithUntracked}, {"hv3", shPriceP}}
+	case "oracle-stale":
+		votes = []c15Vote{{"hv1", shPriceP}, {"hv2", shPriceP}, {"hv3", shPriceP}}
+		if newest < 1 {
+			newest = 1
+		}
+		ts = newest
+	}
+	data, _ := y.votes.build(cs, votes, 11, ts)
+	return opchildtypes.NewMsgUpdateOracle(world.Addr("executor").String(), 11, data)
+}
+
 func (y *c18L2Sys) Step(s *c18L2State, l engine.Letter) (*c18L2State, string, *engine.Violation) {
 	op := l.Data.(c18L2Op)
-	c := &c18L2State{w: s.w, plans: s.plans}
+	c := &c18L2State{w: s.w, plans: s.plans, depth: s.depth + 1}
 	if op.kind == "plan" {
 		ctx, _ := s.ctx.CacheContext()
 		c.ctx = ctx
@@ -385,7 +420,8 @@ func (y *c18L2Sys) Step(s *c18L2State, l engine.Letter) (*c18L2State, string, *e
 	tw := y.twin(s.w)
 	var kept sdk.Context
 	keptOK := false
-	v := c18Compare(y.st, l.Name, func(kind string) c18Obs {
+	// run executes the letter on a fresh branch; limit < 0: no gas limit
+	run := func(kind string, limit int64) (c18Obs, sdk.Context, bool) {
 		w := s.w
 		var ctx sdk.Context
 		if kind == "twin" {
@@ -401,50 +437,19 @@ func (y *c18L2Sys) Step(s *c18L2State, l engine.Letter) (*c18L2State, string, *e
 		if kind != "repeat" {
 			w.K.ExecutorChangePlans = world.ClonePlans(s.plans)
 		}
-		if kind != "A" {
+		if kind != "A" || limit >= 0 {
 			defer func() { w.K.ExecutorChangePlans = map[uint64]opchildtypes.ExecutorChangePlan{} }()
 		}
 		var o c18Obs
 		ok := false
 		switch op.kind {
-		case "msg":
-			r := w.Deliver(ctx, op.msg(w, ctx))
-			o, ok = obsOf(r), r.OK()
-		case "oracle":
-			cs := &c15State{ctx: ctx, w: w, set: y.votes.initial, hostH: 10, flagOn: true}
-			votes := []c15Vote{{"hv1", shPriceP}, {"hv2", shPriceQ}, {"hv3", shNoBTC}}
-			newest := int64(0)
-			for _, p := range cs.prices(ctx) {
-				if p.has && p.ts.UnixNano() > newest {
-					newest = p.ts.UnixNano()
-				}
+		case "msg", "oracle", "oracle-untracked", "oracle-stale":
+			var r world.DeliverResult
+			if limit >= 0 {
+				r = w.DeliverGas(ctx, y.message(op, w, ctx), uint64(limit))
+			} else {
+				r = w.Deliver(ctx, y.message(op, w, ctx))
 			}
-			data, _ := y.votes.build(cs, votes, 11, newest+1_000_000_000)
-			r := w.Deliver(ctx, opchildtypes.NewMsgUpdateOracle(world.Addr("executor").String(), 11, data))
-			o, ok = obsOf(r), r.OK()
-		case "oracle-untracked":
-			cs := &c15State{ctx: ctx, w: w, set: y.votes.initial, hostH: 10, flagOn: true}
-			votes := []c15Vote{{"hv1", shWithUntracked}, {"hv2", shWithUntracked}, {"hv3", shPriceP}}
-			newest := int64(0)
-			for _, p := range cs.prices(ctx) {
-				if p.has && p.ts.UnixNano() > newest {
-					newest = p.ts.UnixNano()
-				}
-			}
-			data, _ := y.votes.build(cs, votes, 11, newest+1_000_000_000)
-			r := w.Deliver(ctx, opchildtypes.NewMsgUpdateOracle(world.Addr("executor").String(), 11, data))
-			o, ok = obsOf(r), r.OK()
-		case "oracle-stale":
-			cs := &c15State{ctx: ctx, w: w, set: y.votes.initial, hostH: 10, flagOn: true}
-			votes := []c15Vote{{"hv1", shPriceP}, {"hv2", shPriceP}, {"hv3", shPriceP}}
-			newest := int64(1)
-			for _, p := range cs.prices(ctx) {
-				if p.has && p.ts.UnixNano() > newest {
-					newest = p.ts.UnixNano()
-				}
-			}
-			data, _ := y.votes.build(cs, votes, 11, newest)
-			r := w.Deliver(ctx, opchildtypes.NewMsgUpdateOracle(world.Addr("executor").String(), 11, data))
 			o, ok = obsOf(r), r.OK()
 		case "block":
 			n, ups, e := c16NextBlock(w, ctx)
@@ -453,6 +458,10 @@ func (y *c18L2Sys) Step(s *c18L2State, l engine.Letter) (*c18L2State, string, *e
 			ok = e == ""
 		}
 		o.dump = dumpHash(ctx, w)
+		return o, ctx, ok
+	}
+	v := c18Compare(y.st, l.Name, func(kind string) c18Obs {
+		o, ctx, ok := run(kind, -1)
 		if kind == "A" {
 			kept, keptOK = ctx, ok
 		}
@@ -462,6 +471,18 @@ func (y *c18L2Sys) Step(s *c18L2State, l engine.Letter) (*c18L2State, string, *e
 	if v != nil {
 		return c, "x", v
 	}
+	if op.kind != "block" && s.depth <= y.sweep {
+		d := y.Digest(s)
+		key := string(d[:]) + l.Name
+		sv, done := y.swept.Load(key)
+		if !done {
+			sv = y.gasSweep(s, op, l.Name, run)
+			y.swept.Store(key, sv)
+		}
+		if v := sv.(*engine.Violation); v != nil {
+			return c, "x", v
+		}
+	}
 	if op.kind == "block" && !keptOK {
 		return c, "cut", &engine.Violation{Clause: "cut:block-failed", Msg: "block processing failed (C13/C14's subject)"}
 	}
@@ -469,6 +490,56 @@ func (y *c18L2Sys) Step(s *c18L2State, l engine.Letter) (*c18L2State, string, *e
 		return c, "accepted", nil
 	}
 	return c, "rejected", nil
+}
+
+// gasSweep runs the same message under every transaction gas limit at which its reference execution
+// can run out of gas: what a node reports for an out-of-gas transaction (error text with the location,
+// gas used) is part of the block's results hash like any other result.
+func (y *c18L2Sys) gasSweep(s *c18L2State, op c18L2Op, name string, run func(kind string, limit int64) (c18Obs, sdk.Context, bool)) *engine.Violation {
+	end := c18MapBegin(nil)
+	bctx, _ := s.ctx.CacheContext()
+	s.w.K.ExecutorChangePlans = world.ClonePlans(s.plans)
+	marks := s.w.GasTrace(bctx, y.message(op, s.w, bctx))
+	s.w.K.ExecutorChangePlans = map[uint64]opchildtypes.ExecutorChangePlan{}
+	end()
+	for _, lim := range c18Limits(marks) {
+		lim := lim
+		first := true
+		v := c18Compare(y.st, fmt.Sprintf("%s under a gas limit of %d", name, lim), func(kind string) c18Obs {
+			o, _, ok := run(kind, int64(lim))
+			if kind == "A" && first {
+				first = false
+				y.st.gasLimits.Add(1)
+				if !ok && strings.HasPrefix(o.err, "panic: ") {
+					y.st.gasOOG.Add(1)
+				}
+			}
+			return o
+		})
+		if v != nil {
+			v.Tags["under-gas-limit"] = "true"
+			return v
+		}
+	}
+	return (*engine.Violation)(nil)
+}
+
+// c18Limits: for the cumulative gas marks m1 < m2 < … of an execution, the limits mi−1 (the i-th charge
+// is the one that crosses the limit) and the total (the message just fits).
+func c18Limits(marks []uint64) []uint64 {
+	var out []uint64
+	last := uint64(0)
+	for _, m := range marks {
+		if m == 0 || m == last {
+			continue
+		}
+		out = append(out, m-1)
+		last = m
+	}
+	if last > 0 {
+		out = append(out, last)
+	}
+	return out
 }
 
 // ------------------------------------------------------------------------------------------
@@ -538,7 +609,7 @@ func init() {
 				return res
 			}
 			res.Absorb("l1", rep)
-			rep2, err := engine.Explore[*c18L2State](&c18L2Sys{st: st, votes: c18Votes(), twins: map[*world.L2]*world.L2{}}, opts(rc, pick(rc, 3, 5)))
+			rep2, err := engine.Explore[*c18L2State](&c18L2Sys{st: st, votes: c18Votes(), sweep: pick(rc, 0, 1), twins: map[*world.L2]*world.L2{}}, opts(rc, pick(rc, 3, 5)))
 			if err != nil {
 				res.HarnessErr = err
 				return res
@@ -546,6 +617,8 @@ func init() {
 			res.Absorb("l2", rep2)
 			res.Coverage["executions"] = st.execs.Load()
 			res.Coverage["map_order_runs"] = st.permRuns.Load()
+			res.Coverage["gas_limit_sweep"] = map[string]any{"limits_tried": st.gasLimits.Load(), "of_which_out_of_gas": st.gasOOG.Load(), "states": "every message letter of every L2 state at depth ≤ " + fmt.Sprint(pick(rc, 0, 1)) + " (L1: root)", "limits": "for the cumulative gas after every single charge of the unlimited execution, that value − 1, plus the total"}
+			res.Require(st.gasOOG.Load() > 0, "the gas-limit sweep never produced an out-of-gas execution")
 			res.Coverage["map_sites_reached"] = st.sites
 			res.Coverage["alphabet"] = "L1: every ophost message type (C16's alphabet) + time; L2: credited/refunded deposits, withdrawal, AddValidator ×3, RemoveValidator ×3, UpdateParams, UpdateOracle with three voters (a fresh timestamp with partial pair coverage; every pair under the newest stored timestamp, which is rejected part-way), RegisterPlan, NextBlock (real End/BeginBlocker)"
 			res.Coverage["oracle"] = "every transition of every explored state is executed twice on the same node, once on a second independently constructed node loaded with the parent's raw store content, and once per permutation (all n! for n ≤ 4) at every instrumented map-range site it reaches; response bytes, full error text, ordered events, gas, ordered validator updates and the digest of every store must be identical; census: no goroutine, select, channel operation, randomness, environment read or wall-clock use outside telemetry, every map range instrumented"
@@ -573,7 +646,7 @@ func init() {
 				}
 				return nil, nil, res.HarnessErr
 			case "l2":
-				return engine.Replay[*c18L2State](&c18L2Sys{st: st, votes: c18Votes(), twins: map[*world.L2]*world.L2{}}, path)
+				return engine.Replay[*c18L2State](&c18L2Sys{st: st, votes: c18Votes(), sweep: 1, twins: map[*world.L2]*world.L2{}}, path)
 			}
 			return engine.Replay[*c16L1State](&c18L1Sys{inner: newC16L1Sys(), st: st, twins: map[*world.L1]*world.L1{}}, path)
 		},
@@ -581,7 +654,8 @@ func init() {
 }
 
 func c18Votes() *c15Sys {
-	y := newC15Sys("V(1,1,1)", 0)
+	// unequal powers: the stored validator records differ in length, so the cost of reading them does too
+	y := newC15Sys("V(100,10,1)", 0)
 	y.genesisVals = [][2]string{{"o1", "k1"}, {"o2", "k2"}, {"o3", "k3"}}
 	return y
 }
